@@ -210,11 +210,13 @@ func (s *ExecutionPayloadHeader) View() *ExecutionPayloadHeaderView {
 	if err != nil {
 		panic(err)
 	}
-	pr, cb, sr, rr := (*RootView)(&s.ParentHash), s.FeeRecipient.View(), (*RootView)(&s.StateRoot), (*RootView)(&s.ReceiptsRoot)
-	lb, rng, nr, gl, gu := s.LogsBloom.View(), (*RootView)(&s.PrevRandao), s.BlockNumber, s.GasLimit, s.GasUsed
+	// copies: the view must not alias the roots of this struct
+	parentHash, stateRoot, receiptsRoot, prevRandao, blockHash, transactionsRoot, withdrawalsRoot := s.ParentHash, s.StateRoot, s.ReceiptsRoot, s.PrevRandao, s.BlockHash, s.TransactionsRoot, s.WithdrawalsRoot
+	pr, cb, sr, rr := (*RootView)(&parentHash), s.FeeRecipient.View(), (*RootView)(&stateRoot), (*RootView)(&receiptsRoot)
+	lb, rng, nr, gl, gu := s.LogsBloom.View(), (*RootView)(&prevRandao), s.BlockNumber, s.GasLimit, s.GasUsed
 	ts, bf := Uint64View(s.Timestamp), &s.BaseFeePerGas
-	bh, tr := (*RootView)(&s.BlockHash), (*RootView)(&s.TransactionsRoot)
-	wr := (*RootView)(&s.WithdrawalsRoot)
+	bh, tr := (*RootView)(&blockHash), (*RootView)(&transactionsRoot)
+	wr := (*RootView)(&withdrawalsRoot)
 	bgu, ebg := &s.BlobGasUsed, &s.ExcessBlobGas
 
 	v, err := AsExecutionPayloadHeader(ExecutionPayloadHeaderType.FromFields(pr, cb, sr, rr, lb, rng, nr, gl, gu, ts, ed, bf, bh, tr, wr, bgu, ebg))
